@@ -66,7 +66,8 @@ fn real_main(args: Vec<String>) -> i32 {
     }
     let prop = pos[0].clone();
     if std::env::var("VH_WORKER").is_ok() {
-        match engine_of(&prop) {
+        let eng = std::env::var("VH_ENGINE").unwrap_or_else(|_| engine_of(&prop).to_string());
+        match eng.as_str() {
             "e1" => e1::worker(&tier),
             "e2" => e2::worker(&prop, &tier),
             "e4" => match prop.as_str() {
@@ -130,8 +131,14 @@ fn replay(path: &str) -> i32 {
 fn run_e1(prop: &str, tier: &str) -> i32 {
     let args = vec![prop.to_string(), "--tier".into(), tier.to_string()];
     let cap = if tier == "thorough" { 3600 } else { 600 };
-    let out = supervise::run_sharded(&args, nshards(), Duration::from_secs(30), Duration::from_secs(cap), &[]);
-    let tr = *out.stats.get("transitions").unwrap_or(&0);
+    let mut out = supervise::run_sharded(&args, nshards(), Duration::from_secs(30), Duration::from_secs(cap), &[]);
+    if prop == "C08" {
+        // "programs that alias variables through rule heads": the alias / list / non-ground-fact
+        // program families on the real solver; a cycle in any answer's substitution set is charged to C08
+        let o2 = supervise::run_sharded(&args, nshards(), Duration::from_secs(20), Duration::from_secs(cap), &[("VH_ENGINE".to_string(), "e2".to_string())]);
+        out.absorb(o2);
+    }
+    let tr = *out.stats.get("transitions").unwrap_or(&0) + *out.stats.get("next_solution_calls").unwrap_or(&0);
     let states = *out.distinct.get("states").unwrap_or(&0);
     let coverage = json!({
         "states": states,
